@@ -86,6 +86,52 @@ void sync_struct_array_member_after_pointer_write(
         }
     }
 }
+
+// `*p = value` where p points to the variable / struct member `pointee`:
+// the value a direct store to `pointee` would keep (unsigned clamp, then the
+// range check of the pointee's declared type). Pointer, array and struct
+// pointees are not integer locations and are left alone.
+int64_t range_checked_pointee_value(Interpreter &interpreter,
+                                    const Variable *pointee, int64_t value) {
+    if (!pointee || pointee->is_pointer || pointee->is_array ||
+        pointee->is_struct || pointee->is_function_pointer) {
+        return value;
+    }
+    return interpreter.range_checked_store_value(
+        pointee->type, pointee->is_unsigned, value, "*pointer");
+}
+
+// `*p = value` where p is a metadata pointer (&x, &a[i], &s.m): the declared
+// type of the pointee (the variable, the array's element type, the member)
+// decides, not the type of the value.
+int64_t
+range_checked_metadata_value(Interpreter &interpreter,
+                             const PointerSystem::PointerMetadata *meta,
+                             int64_t value) {
+    using PointerSystem::PointerTargetType;
+    if (meta->target_type == PointerTargetType::VARIABLE) {
+        return range_checked_pointee_value(interpreter, meta->var_ptr, value);
+    }
+    if (meta->target_type == PointerTargetType::STRUCT_MEMBER) {
+        return range_checked_pointee_value(interpreter, meta->member_var,
+                                           value);
+    }
+    if (meta->target_type == PointerTargetType::ARRAY_ELEMENT &&
+        meta->array_var) {
+        const Variable *arr = meta->array_var;
+        TypeInfo elem_type =
+            (arr->type >= TYPE_ARRAY_BASE)
+                ? static_cast<TypeInfo>(arr->type - TYPE_ARRAY_BASE)
+                : meta->element_type;
+        // same exclusions as a direct element store (arrays of pointers)
+        if (elem_type == TYPE_POINTER || arr->is_pointer || arr->is_struct) {
+            return value;
+        }
+        return interpreter.range_checked_store_value(
+            elem_type, arr->is_unsigned, value, "*pointer");
+    }
+    return value;
+}
 } // namespace
 
 void execute_assignment(StatementExecutor *executor, Interpreter &interpreter,
@@ -224,10 +270,12 @@ void execute_assignment(StatementExecutor *executor, Interpreter &interpreter,
                     meta->write_float_value(float_val);
                 } else {
                     // 整数型へのfloat代入は切り捨て
-                    meta->write_int_value(static_cast<int64_t>(float_val));
+                    meta->write_int_value(range_checked_metadata_value(
+                        interpreter, meta, static_cast<int64_t>(float_val)));
                 }
             } else {
-                meta->write_int_value(typed_value.as_numeric());
+                meta->write_int_value(range_checked_metadata_value(
+                    interpreter, meta, typed_value.as_numeric()));
             }
 
             // 構造体の配列メンバー要素を指している場合、他の格納先も更新
@@ -362,6 +410,16 @@ void execute_assignment(StatementExecutor *executor, Interpreter &interpreter,
                         }
                     } else {
                         int64_t int_val = typed_value.as_numeric();
+                        // `T* p = new T; *p = v` for an integer T: the cell
+                        // is declared T, so v is range-checked like a store
+                        // to a T variable instead of being truncated
+                        if (ptr_var->pointer_depth <= 1 &&
+                            typed_value.numeric_type != TYPE_POINTER) {
+                            int_val = interpreter.range_checked_store_value(
+                                ptr_var->pointer_base_type,
+                                ptr_var->is_unsigned, int_val,
+                                "*" + node->left->left->name);
+                        }
                         // 型に応じたサイズで書き込み
                         if (ptr_var->type == TYPE_INT ||
                             ptr_var->type == TYPE_SHORT ||
@@ -403,10 +461,13 @@ void execute_assignment(StatementExecutor *executor, Interpreter &interpreter,
                                 static_cast<long double>(float_val);
                         } else {
                             // 整数型への代入は切り捨て
-                            var->value = static_cast<int64_t>(float_val);
+                            var->value = range_checked_pointee_value(
+                                interpreter, var,
+                                static_cast<int64_t>(float_val));
                         }
                     } else {
-                        var->value = typed_value.as_numeric();
+                        var->value = range_checked_pointee_value(
+                            interpreter, var, typed_value.as_numeric());
                     }
                     var->is_assigned = true;
                 }
